@@ -646,6 +646,10 @@ def is_set_expr(e, names=()):
         return is_set_expr(e.left, names) or is_set_expr(e.right, names)
     if isinstance(e, ast.Name) and e.id in names:
         return True
+    if (isinstance(e, ast.Attribute) and e.attr == 'expected_tokens') or (isinstance(e, ast.Name) and e.id == 'expected_tokens'):
+        # what sly hands to the error callback: list(actions[state].keys()) - the keys in the order the table generator met the terminals, which follows the
+        # order of the productions; the mindsdb grammar expands a SET into productions (`@_(*all_tokens_list)`), so that order differs from process to process
+        return True
     if isinstance(e, ast.Subscript) and isinstance(e.slice, ast.Constant) and e.slice.value in ('integrations',):
         return True         # query_info['integrations'] is built as set() in get_query_info (checked below)
     return False
